@@ -339,6 +339,26 @@ def Expansion.ofValue : Option Value → Expansion
   | some (.scalar s) => .scalar s
   | some (.array vs) => .array vs
 
+/-- `Expansion::len`: 0, the length of the scalar in bytes (`str::len`), the number of elements -/
+def Expansion.len : Expansion → Nat
+  | .unset => 0
+  | .scalar s => s.utf8ByteSize
+  | .array vs => vs.length
+
+/-- `Expansion::is_empty` -/
+def Expansion.isEmpty (e : Expansion) : Bool := e.len == 0
+
+/-- `Expansion::split`: nothing, the scalar split at every `:`, the elements -/
+def Expansion.split : Expansion → List String
+  | .unset => []
+  | .scalar s => s.splitOn ":"
+  | .array vs => vs
+
+/-- `Value::split` (value.rs): the scalar split at every `:`, the elements of an array -/
+def Value.split : Value → List String
+  | .scalar s => s.splitOn ":"
+  | .array vs => vs
+
 /-- the `while let Source::Alias { original, .. } = &*location.code.source` loop of `quirk::expand`
     followed by `location.code.line_number(location.range.start)` -/
 def Loc.line : Loc → Nat
